@@ -117,7 +117,7 @@ def explore(tier="quick", prop="C18"):
     rng = random.Random(common.seed() * 131 + 8)
     stats = {"evaluations": 0, "distinct_nontrivial": 0, "samples": []}
     failure = None
-    reps = 80 if tier == "quick" else 3000
+    reps = 200 if tier == "quick" else 3000
     for i in range(reps):
         for kind, fn in (("split", lambda: check_split(rng)), ("convert", lambda: check_convert(rng, str(i))),
                          ("reject", lambda: check_rejects(rng))):
